@@ -93,6 +93,7 @@ def run(ctx):
     r6 = ctx.rule("C07.R6", "the (B, E) the receiver partitions with are the object's own: " + c10.EXTRACTION_TEXT + " (shared with C10.R6)", "fallback order + sibling agreement")
     c10.receiver_extraction_rule(ctx, r6)
     r6.floor(20, "extraction facts")
+    _r7(ctx)
     z_range_rule(ctx, ctx.rule("C07.R5", Z_TEXT, "E4 range of the written value vs the reader's refusal"))
 
     # ---- R1c: the receiver hands its partition to block_length under the right parameter names --------------------------
@@ -357,3 +358,11 @@ def nested_div_ceil(sl, f, aggr_stmt):
     if z != eZ:
         return False, "inner divisor %s is not the Z stored in the Oti (%s)" % (show(z, 60), show(eZ, 60))
     return True, "B = div_ceil(div_ceil(F, Z), T) with F, Z, T the values returned/stored"
+
+
+def _r7(ctx):
+    from . import c01
+    c01.block_addressing_rule(ctx, ctx.rule("C07.R7", "the receiver addresses blocks by the partition it derived: " + c01.ADDR_TEXT + "; the SBN of a packet "
+                                                      "is range-tested against the partition's N, not against the slots allocated so far (shared with C01.R9)",
+                                            "value shape + DOM"))
+
